@@ -67,11 +67,21 @@ fn project_code(full: &Ev, cm: &Mask) -> Ev {
 		max_stack: *max_stack, max_locals: *max_locals,
 		insns: insns.iter().map(|i| Insn { label: i.label, frame: if frames { i.frame.clone() } else { None }, text: i.text.clone() }).collect(),
 		last_label: *last_label, exc: exc.clone(),
-		es: es.iter().filter(|e| match e {
-			Ev::Attr { name, raw, .. } => keep_attr(&CODE_GOV, cm, name, raw.is_some()),
-			Ev::Deferred { slot, .. } => has(cm, slot),
-			_ => true,
-		}).cloned().collect(),
+		es: es.iter().filter_map(|e| match e {
+			Ev::Attr { name, raw, .. } => if keep_attr(&CODE_GOV, cm, name, raw.is_some()) { Some(e.clone()) } else { None },
+			Ev::Deferred { slot, items, .. } => {
+				// an entry reaches the visitor iff the visitor is interested in the attribute kind it comes from
+				let wanted = |k: u8| match k { 0 => has(cm, "line_number_table"), 1 => has(cm, "local_variable_table"), _ => has(cm, "local_variable_type_table") };
+				let kept: Vec<(u8, String)> = items.iter().filter(|(k, _)| wanted(*k)).cloned().collect();
+				let any_flag = if *slot == "line_number_table" { wanted(0) } else { wanted(1) || wanted(2) };
+				if !any_flag { None }
+				else if kept.len() == items.len() { Some(Ev::Deferred { slot, items: kept, optional: false }) }
+				// nothing of the wanted kind in the full table: the attribute of that kind is absent (no visit) or empty (visit of an empty table)
+				else if kept.is_empty() { Some(Ev::Deferred { slot, items: kept, optional: true }) }
+				else { Some(Ev::Deferred { slot, items: kept, optional: false }) }
+			}
+			_ => Some(e.clone()),
+		}).collect(),
 	}
 }
 
@@ -126,10 +136,19 @@ fn ev_matches(got: &Ev, want: &Ev) -> bool {
 				&& evs_match(e, e2),
 		(Ev::Rc { hdr: h, es: e }, Ev::Rc { hdr: h2, es: e2 }) | (Ev::Field { hdr: h, es: e }, Ev::Field { hdr: h2, es: e2 })
 		| (Ev::Method { hdr: h, es: e }, Ev::Method { hdr: h2, es: e2 }) => h == h2 && match (e, e2) { (Some(a), Some(b)) => evs_match(a, b), (None, None) => true, _ => false },
+		(Ev::Deferred { slot: a, items: x, .. }, Ev::Deferred { slot: b, items: y, .. }) => a == b && x == y,
 		(a, b) => a == b,
 	}
 }
-fn evs_match(got: &[Ev], want: &[Ev]) -> bool { got.len() == want.len() && got.iter().zip(want).all(|(a, b)| ev_matches(a, b)) }
+fn evs_match(got: &[Ev], want: &[Ev]) -> bool {
+	let (mut i, mut j) = (0, 0);
+	while j < want.len() {
+		if i < got.len() && ev_matches(&got[i], &want[j]) { i += 1; j += 1; }
+		else if matches!(&want[j], Ev::Deferred { optional: true, .. }) { j += 1; }
+		else { return false; }
+	}
+	i == got.len()
+}
 
 fn first_diff(got: &[Ev], want: &[Ev]) -> String {
 	for (i, (a, b)) in got.iter().zip(want).enumerate() {
